@@ -7,6 +7,7 @@ import FqeVerif.Model.Cirq
 import FqeVerif.Model.Sectors
 import FqeVerif.Model.Hamil
 import FqeVerif.Model.Evolve
+import FqeVerif.Model.Algo
 namespace Driver
 open Fock Model
 
@@ -172,6 +173,14 @@ def cmd (name : String) : P String := do
         | .individual => "individual" | .diagonal => "diagonal" | .quadratic => "quadratic"
         | .diagCoulomb => "diagcoulomb" | .taylor => "taylor"
       return s!"{r} {b2n (inplaceRefused h)} {(sitesTimeEvolve h).length}"
+  -- Model: series loop control flow.  `<taylor|chebyshev> <expansion> <n> b_0 .. b_{n-1}` (b_k = break test at order k)
+  | "seriesloop" => do
+      let algo ← tok; let expansion ← nat; let bs ← natList
+      let test := fun k => bs.getD k 0 != 0
+      let r := if algo == "taylor" then taylorLoop test expansion else chebyshevLoop test expansion
+      match r with
+      | none => return "raise"
+      | some k => return toString k
   | _ => throw s!"unknown command {name}"
 
 def handle (line : String) : String :=
